@@ -305,7 +305,10 @@ impl Lowerer {
 
                 // pull columns from the table decl
                 let frame = expr.lineage.as_ref().unwrap();
-                let input = frame.inputs.first().unwrap();
+                let Some(input) = frame.inputs.first() else {
+                    return Err(Error::new_simple("expected a relation that refers to a table")
+                        .with_span(expr.span));
+                };
 
                 let table_decl = self.root_mod.module.get(&input.table).unwrap();
                 let table_decl = table_decl.kind.as_table_decl().unwrap();
@@ -342,7 +345,10 @@ impl Lowerer {
 
                 // pull columns from the table decl
                 let frame = expr.lineage.as_ref().unwrap();
-                let input = frame.inputs.first().unwrap();
+                let Some(input) = frame.inputs.first() else {
+                    return Err(Error::new_simple("expected a relation that refers to a table")
+                        .with_span(expr.span));
+                };
 
                 let table_decl = self.root_mod.module.get(&input.table).unwrap();
                 let table_decl = table_decl.kind.as_table_decl().unwrap();
@@ -720,7 +726,13 @@ impl Lowerer {
                         .push_hint("join is not supported inside group"));
                     };
 
-                    match &self.node_mapping[&input.id] {
+                    let Some(target) = self.node_mapping.get(&input.id) else {
+                        return Err(Error::new_assert(format!(
+                            "the input `{}` of this relation was not lowered",
+                            input.name
+                        )));
+                    };
+                    match target {
                         LoweredTarget::Compute(_cid) => unreachable!(),
                         LoweredTarget::Input(input_cols) => {
                             let mut input_cols = input_cols
